@@ -258,7 +258,12 @@ where
     let mut reply_receiver_list = VecDeque::<CmdReplyFuture>::with_capacity(SESSION_BATCH_BUF);
     let mut replies = VecDeque::<Box<RespPacket>>::with_capacity(SESSION_BATCH_BUF);
 
-    let mut timeout_interval = session_timeout.map(tokio::time::interval);
+    // The first tick of `tokio::time::interval` completes immediately,
+    // so start ticking one period from now. Otherwise a new connection
+    // which has not sent anything yet gets closed on the first poll.
+    let mut timeout_interval = session_timeout.map(|timeout| {
+        tokio::time::interval_at(tokio::time::Instant::now() + timeout, timeout)
+    });
     let mut data_received = false;
 
     future::poll_fn(|cx: &mut Context<'_>| -> Poll<Result<(), SessionError>> {
